@@ -329,6 +329,8 @@ type Config struct {
 	EDSDelete    bool    `json:"edsDelete"`
 	StrategyEdits bool   `json:"strategyEdits"`
 	LabelEdits   bool    `json:"labelEdits,omitempty"` // labels of the ExtendedDaemonSet itself change (helm upgrade, kubectl label)
+	PodTplEdits  bool    `json:"podTplEdits,omitempty"` // somebody deletes the PodTemplate, or creates one of that name first
+	PatchDenied  bool    `json:"patchDenied,omitempty"` // every pod patch of the replica-set controller is refused (missing verb, admission webhook)
 	Evictions    bool    `json:"evictions,omitempty"` // daemon pods are deleted by somebody else (drain, eviction)
 	ModeEdits    bool    `json:"modeEdits,omitempty"` // the user flips canary.validationMode on the defaulted object
 	ERSTouch     bool    `json:"ersTouch,omitempty"` // somebody edits the metadata of replica sets (kubectl annotate)
